@@ -475,6 +475,7 @@ impl Prop for NotifProp {
             faults = nodesim::gen_faults(&mut rng, n, last + 2000, 3, true);
             faults.extend(nodesim::gen_connect_faults(&mut rng, 1));
         }
+        faults.extend(nodesim::gen_freeze_faults(seed, n, last + 2000));
         let mut per_node = Vec::new();
         for _ in 0..n {
             per_node.push(json!({
